@@ -1738,10 +1738,12 @@ class Models:
         return len(deref(s).s)
 
     def m_str__is_empty(self, c, s):
-        return len(deref(s)) == 0
+        s = deref(s)
+        return len(s.s if isinstance(s, RString) else s) == 0
 
     def m_str__len(self, c, s):
-        return len(deref(s))
+        s = deref(s)
+        return len(s.s if isinstance(s, RString) else s)
 
     def m_str__trim(self, c, s):
         return deref(s).strip()
